@@ -92,12 +92,12 @@ def dup (t : FdTable) (src min : Fd) (cloexec : Bool) (denied : Bool) : Except D
     | none => .error .EMFILE
     | some r => .ok r
 
-/-- `Dup::dup2(from, to)`: the new descriptor has no flags; `none` = EBADF
-    (source not open, or target not below the limit) -/
+/-- `Dup::dup2(from, to)`: `from == to` changes nothing (the flag stays); otherwise the new
+    descriptor has no flags; `none` = EBADF (source not open, or target not below the limit) -/
 def dup2 (t : FdTable) (src dst : Fd) : Option FdTable :=
   match t.get src with
   | none => none
-  | some e => t.setFd dst { ofd := e.ofd, cloexec := false }
+  | some e => if src = dst then some t else t.setFd dst { ofd := e.ofd, cloexec := false }
 
 /-- open descriptors in increasing order -/
 def openFds (t : FdTable) : List (Fd × FdEntry) :=
